@@ -6,7 +6,7 @@ cd /verif
 ids="$@"; [ -z "$ids" ] && ids=$(ls seeded)
 for id in $ids; do
   prop=$(python3 -c "import json;print(json.load(open('seeded/$id/meta.json'))['property'])")
-  if ! git -C /repo apply --check /verif/seeded/$id/patch.diff 2>/dev/null; then echo "$id: STALE (patch does not apply to $(git -C /repo rev-parse --short HEAD))"; continue; fi
+  if ! git -C ${SEED_REPO:-/repo} apply --check /verif/seeded/$id/patch.diff 2>/dev/null; then echo "$id: STALE (patch does not apply to $(git -C /repo rev-parse --short HEAD))"; continue; fi
   note=$(python3 -c "import json;print(json.load(open('seeded/$id/meta.json')).get('strengthening',''))")
   tools/run_seed.sh "$prop" "/verif/seeded/$id/patch.diff" quick > /tmp/record_$id.log 2>&1
   python3 tools/keep_seed.py "$id" "$prop" "/verif/seeded/$id" auto "$note" | tr '\n' ' '; head -1 /tmp/record_$id.log
